@@ -9,7 +9,9 @@ RULE = (
     "ANSI} x verbosity {NORMAL, VERBOSE, VERY_VERBOSE, DEBUG} x flags {None, 0..7} x quiet {off, on}; each cell on "
     "fresh objects with a unique marker text. Non-trivial: flags with >= 2 bits, or quiet on, or a section / IO-level "
     "entry point. section-history: two sections of one output, every history of three write_line calls over section x "
-    "flags x quiet x verbosity: a marker is in the stream iff the gate was open when it was written. Every cell / "
+    "flags x quiet x verbosity: a marker is in the stream iff the gate was open when it was written. setter-history: every "
+    "sequence of 1-4 set_quiet / set_verbosity calls on one object, then a write with every flag word, judged by the final "
+    "settings only. Every cell / "
     "history is a distinct case by construction."
 )
 ASSUMPTIONS = [
@@ -195,7 +197,53 @@ def shard_section_history(ctx, arg):
         check_section_history(ctx, {"formatter": fmt_kind, "sections": 2, "steps": [list(first)] + [list(r) for r in rest]}, True)
 
 
-PARTS = {"gate": check_cell, "section-history": check_section_history}
+SETTERS = [("quiet", True), ("quiet", False), ("verbosity", 0), ("verbosity", 1), ("verbosity", 2), ("verbosity", 4)]
+
+
+def check_setter_history(ctx, case, by_construction=False):
+    """The gate depends on the CURRENT quiet / verbosity settings only, whatever sequence of setter calls led there."""
+    kind, fmt_kind, seq = case["kind"], case["formatter"], case["setters"]
+    ctx.case("setter-history", case, True, distinct_by_construction=by_construction)
+    obj, streams = build(kind, fmt_kind)
+    quiet, verbosity = False, 0
+    for name, value in seq:
+        if name == "quiet":
+            obj.set_quiet(value)
+            quiet = value
+        else:
+            obj.set_verbosity(value)
+            verbosity = value
+    if bool(obj.is_quiet()) != quiet or obj.verbosity != verbosity:
+        ctx.fail("setter-history", "C10.gate", case, [quiet, verbosity], [obj.is_quiet(), obj.verbosity], sig="reported-state")
+        return
+    for flags in FLAGS:
+        _counter[0] += 1
+        marker = "MK%dX" % _counter[0]
+        method = "write_line"
+        try:
+            getattr(obj, method)(marker, flags=flags)
+        except Exception as e:
+            ctx.fail("setter-history", "C10.gate", case, "write_line returns", {"flags": flags}, exc=e)
+            return
+        present = marker in streams["out"].fetch()
+        want = expected_open(verbosity, flags, quiet)
+        if present != want:
+            ctx.fail("setter-history", "C10.gate" if want else "C10.nothing-else", case,
+                     {"flags": flags, "quiet": quiet, "verbosity": verbosity, "written": want}, {"written": present},
+                     sig="setter-history-" + ("lost" if want else "leaked"))
+            return
+
+
+def shard_setter_history(ctx, arg):
+    import itertools
+
+    kind, fmt_kind, first = arg
+    for n in (0, 1, 2, 3):
+        for rest in itertools.product(SETTERS, repeat=n):
+            check_setter_history(ctx, {"kind": kind, "formatter": fmt_kind, "setters": [list(first)] + [list(r) for r in rest]}, True)
+
+
+PARTS = {"gate": check_cell, "section-history": check_section_history, "setter-history": check_setter_history}
 
 
 def cells():
@@ -234,4 +282,7 @@ def run(ctx):
     ctx.exhaustive("gate", True, "object kinds x reflected methods x formatter x verbosity x flags x quiet")
     options = [(si, fl, q, v) for si in (0, 1) for fl in (None, 1, 4) for q in (0, 1) for v in (0, 4)]
     ctx.parallel("shard_section_history", [(k, o) for k in ("plain", "ansi") for o in options])
+    ctx.parallel("shard_setter_history", [(k, f, st_) for k in ("output", "output-section", "buffered-io") for f in ("plain", "ansi")
+                                           for st_ in SETTERS])
+    ctx.exhaustive("setter-history", True, "3 object kinds x formatter x all sequences of 1-4 setter calls over {quiet on/off, verbosity 0/1/2/4}, then a write with every flag word")
     ctx.exhaustive("section-history", True, "2 sections x all histories of 3 write_line calls over section x flags {None,1,4} x quiet x verbosity {0,4} x formatter")
